@@ -75,9 +75,11 @@ def model_check(ctx, d):
     lib.require_coverage(r, ["PCommit", "PErr", "PRetErr", "Crash"])
     lib.account_tlc(ctx, r)
     broken = {}
+    rel = [i for i in INVS if i != "Consistent"]
     for m in SPEC_MUTANTS:
         cfg = "MC_mut_%s.cfg" % m
-        write_mc_cfg(os.path.join(d, cfg), True, m)
+        # the older mutants must each break a relative invariant (as before Consistent existed)
+        write_mc_cfg(os.path.join(d, cfg), True, m, invs=None if m == "SwallowRefusal" else rel)
         r = lib.tlc(ctx, d, "TxnAtomic", cfg, workers=1, timeout=600, expect_ok=False, coverage=False)
         if r.ok or not r.invariant:
             raise lib.ToolError("vacuity: spec mutant %s does not break any invariant of TxnAtomic" % m)
@@ -86,7 +88,6 @@ def model_check(ctx, d):
     # What Consistent adds: where the uninterrupted run is not given but learnt from a first run (as trace validation
     # does it), an operation that swallows its own refusal and commits satisfies every relative invariant -- only
     # Consistent is broken.
-    rel = [i for i in INVS if i != "Consistent"]
     write_mc_cfg(os.path.join(d, "MC_learnt_rel.cfg"), True, "SwallowRefusal", invs=rel, constraint="LearnOnly")
     r = lib.tlc(ctx, d, "TxnAtomic", "MC_learnt_rel.cfg", workers=1, timeout=600, expect_ok=False, coverage=False)
     if not r.ok:
